@@ -12,6 +12,7 @@ atomic call on one cache:
            that reached the archive is evaluated again, no second store appears, a pickled handle still addresses the same store.
   hashraises - a `safe` decorator with the raw keymap and an argument whose __hash__ raises (TypeError, KeyError, ValueError, RuntimeError).
   jsonpurge - purge=True over a JSON file archive with non-text keys (the archive hands keys back as text): the memory bound still holds.
+  redecorate - a second decorator (fresh function object) over the SAME cache object while the first one's results are still only in memory.
   reuse  - ONE decorator object applied to two functions (`memo = lru_cache(maxsize=3); f = memo(f0); g = memo(g0)`): each
            function's results are its own, each has its own account in info(), clear() of one leaves the other's counters.
 
@@ -57,6 +58,7 @@ def gen(tier, idx):
     if idx % 8 == 3: scen = 'chdir'
     if idx % 16 == 7: scen = 'hashraises'
     if idx % 32 == 11: scen = 'jsonpurge'
+    if idx % 32 == 27: scen = 'redecorate'
     algo = ALGOS[(idx // 4) % 6]; safe = (idx // 24) % 2 == 1
     cfg = dict(scen=scen, algo=algo, safe=safe, seed=r.randrange(10 ** 6), maxsize=r.choice([1, 2, 3, 3, 5]), purge=r.random() < 0.35)
     if scen == 'reuse': cfg.update(algo=ALGOS[(idx // 8) % 6], safe=(idx // 48) % 2 == 1)
@@ -66,6 +68,10 @@ def gen(tier, idx):
         cfg.update(algo=['lru', 'lfu', 'mru', 'rr', 'no'][(idx // 8) % 5], safe=(idx // 40) % 2 == 1, arch='dir', purge=False, maxsize=r.choice([1, 2]),
                    keymap=['string', 'raw', 'stringr'][(idx // 8) % 3], calls=[r.randrange(len(NAME_ARGS)) for _ in range(24)])
     if scen == 'names': pass
+    elif scen == 'redecorate':
+        # a second decorator (a fresh function object) is put over the SAME cache object while results of the first are still only in memory
+        cfg.update(algo=['lfu', 'lru', 'mru', 'rr', 'inf'][(idx // 32) % 5], safe=(idx // 160) % 2 == 1, arch=['dict', 'file', 'dir'][(idx // 32) % 3], purge=False,
+                   maxsize=r.choice([2, 3]), calls=[r.randrange(8) for _ in range(10)], calls2=[r.randrange(8) for _ in range(24)])
     elif scen == 'jsonpurge':
         # purge=True over an archive that does not hand keys back as it got them (a JSON file turns int keys into text): whatever that does
         # to what can be found again (F7), the memory bound is the cache's own business
@@ -235,6 +241,21 @@ def run_case(cfg):
                 if len(f.__cache__()) > cfg['maxsize']:
                     bad('C05', 'purge-size-exceeds-maxsize', 'purge=True over a JSON file archive (%s keys): after h(%d) the cache holds %d entries' % (cfg['keymap'], x, len(f.__cache__())), keymap=cfg['keymap'])
                     break
+        elif cfg['scen'] == 'redecorate':
+            evals = []
+            def make():
+                def g(x): evals.append(x); return 'v%d' % x
+                return g
+            c = kcache(archive=make_archive(cfg['arch'], tmp, 'rd'))
+            f1 = D(**dkw(cfg, c))(make())
+            for x in cfg['calls']:
+                if callf(f1, x) not in ('v%d' % x, _Raised): bad('C01', 'redecorate-wrong-result', 'g(%d) wrong under the first decorator' % x)
+            f2 = D(**dkw(cfg, c))(make())
+            for x in cfg['calls2']:
+                if callf(f2, x) not in ('v%d' % x, _Raised): bad('C01', 'redecorate-wrong-result', 'g(%d) wrong under the second decorator' % x)
+            dup = sorted(x for x, n_ in collections.Counter(evals).items() if n_ > 1)
+            if dup and not viol:
+                bad('C02', 'redecorate-re-evaluation', 'a second decorator over the same cache object (lossless %s archive attached throughout, nothing cleared): the arguments %r were evaluated again' % (cfg['arch'], dup[:6]))
         elif cfg['scen'] == 'hashraises':
             from klepto.keymaps import keymap
             E = dict(TypeError=TypeError, KeyError=KeyError, ValueError=ValueError, RuntimeError=RuntimeError)[cfg['exc']]
@@ -379,7 +400,7 @@ def explore(prop, tier, offset=0):
         tags[o['cfg']['scen']] += 1; tags['algo=' + o['cfg']['algo']] += 1
         for v in o['viol']:
             if v['prop'] in (prop, '*'): viols.append(dict(v, prop=prop, i=0, cfg=o['cfg'], ops=[]))
-    n = sum(tags[s] for s in ('recur', 'twin', 'unser', 'reuse', 'names', 'chdir', 'hashraises', 'jsonpurge'))
+    n = sum(tags[s] for s in ('recur', 'twin', 'unser', 'reuse', 'names', 'chdir', 'hashraises', 'jsonpurge', 'redecorate'))
     # the recursive traces against the model (flat history of completions)
     import run_wrapper as rw
     trs = [o['trace'] for o in res if o.get('trace') is not None]
